@@ -149,6 +149,11 @@ Definition check_item (s : nat) (it : item) : bool :=
 Definition check_items : bool :=
   forallb (fun s => forallb (check_item s) (nth s (c_items c) [])) (seq 0 nstates).
 
+(* LR(0) membership: the lookahead of a predecessor item is irrelevant, and in
+   an LALR automaton (states merged by core) it may indeed differ *)
+Definition has_item0 (c : cert) (s p d : nat) : bool :=
+  existsb (fun it => let '(p', d', _) := it in Nat.eqb p p' && Nat.eqb d d') (nth s (c_items c) []).
+
 (* V5: what each table entry needs as justification (soundness direction) *)
 Definition past_ok (s s' : nat) (X : sym) : bool :=
   forallb (fun it =>
@@ -159,7 +164,7 @@ Definition past_ok (s s' : nat) (X : sym) : bool :=
       match nth_error g p with
       | Some pr =>
         match nth_error (rhs pr) d' with
-        | Some Y => sym_eqb X Y && has_item c s (p, d', a)
+        | Some Y => sym_eqb X Y && has_item0 c s p d'
         | None => false
         end
       | None => false
